@@ -133,7 +133,7 @@ package fingerprint
 // the marker is re-dated to the time THIS check was made (taken before the comparison), never to a time derived
 // from the files it compares: an edit made after the run is always newer than the marker
 //@   site time.Now#1 ghost checkTime := result
-//@   site os.Chtimes#1 requires arg0 == timestampFile && arg1 == checkTime && arg2 == checkTime                      [C05,C04]
+//@   site os.Chtimes#0 requires arg0 == timestampFile && arg1 == checkTime && arg2 == checkTime                      [C05,C04]
 //@   ensures result.1 == nil && compared && !checker.dry ==> refreshed                                               [C05]
 // a missing generates file makes the task run again with method timestamp too: every (non-negated) generates
 // entry must resolve to at least one existing file before the answer can be "up to date"
@@ -154,7 +154,7 @@ package fingerprint
 // ---- C05: the list of matched files is in ONE fixed order (plain string order), whatever order the map gave:
 // the checksum hashes names and contents in list order
 //@ func collectKeys
-//@   site sort.Strings#1 requires arg0 == keys                                                      [C05]
+//@   site sort.Strings#0 requires arg0 == keys                                                      [C05]
 //@   nosite sort.Slice                                                                               [C05]
 //@   nosite sort.SliceStable                                                                         [C05]
 //@   nosite slices.SortFunc                                                                          [C05]
